@@ -102,7 +102,22 @@ def run(tier, seed, open_findings):
                     except Exception as e: outc = 'OTHER:' + type(e).__name__
                     if outc == 'built' or outc.startswith('OTHER') or _events:
                         sfails.append(dict(case=dict(payload=pname, role=role, cls=cls.__name__), observed=dict(outcome=outc, secret_opened=bool(_events)), required='refused, nothing fetched'))
-        out.append(result('C13.schema_roles', '4 payloads x (main schema, included schema) x 2 classes with defuse=always', m, sfails, exhaustive=True, samples=[dict(payload='external', role='included-schema')]))
+        # document-level API: the schema is built by the API from a source; the caller's defuse mode must govern that schema too
+        for pname in ('internal-unused', 'external', 'ext-subset'):
+            dtd = payloads(secret, 10)[pname].split('<r>')[0]
+            inc = os.path.join(root, 'api.xsd'); open(inc, 'w').write(dtd.replace('DOCTYPE r', 'DOCTYPE xs:schema') + f'<xs:schema {XS}><xs:element name="r"/></xs:schema>')
+            for api in ('validate', 'is_valid', 'iter_errors', 'to_dict'):
+                m += 1; _events.clear()
+                try:
+                    f = getattr(xmlschema, api); r_ = f('<r>ok</r>', inc, defuse='always')
+                    if api == 'iter_errors': list(r_)
+                    outc = 'built'
+                except XMLResourceForbidden: outc = 'forbidden'
+                except XMLSchemaException as e: outc = 'libexc:' + type(e).__name__
+                except Exception as e: outc = 'OTHER:' + type(e).__name__
+                if outc == 'built' or outc.startswith('OTHER') or _events:
+                    sfails.append(dict(case=dict(payload=pname, role='schema-of-document-api', cls=api), observed=dict(outcome=outc, secret_opened=bool(_events)), required='refused, nothing fetched'))
+        out.append(result('C13.schema_roles', '4 payloads x (main schema, included schema) x 2 classes, and 3 payloads x 4 package-level functions that build the schema from a path, with defuse=always', m, sfails, exhaustive=True, samples=[dict(payload='external', role='included-schema')]))
         # large prolog on a non-seekable stream (the first start tag lies beyond the 64 KiB look-ahead buffer)
         big = '<?xml version="1.0"?><!--' + 'c' * 70000 + '--><r>ok</r>'
         lf = []
